@@ -6,6 +6,7 @@ package hsx
 
 import (
 	"errors"
+	"strings"
 	"net"
 	"os"
 	"sync"
@@ -158,4 +159,12 @@ func (c *CliConn) SetReadDeadline(t time.Time) error {
 }
 func (c *CliConn) SetWriteDeadline(t time.Time) error { return nil }
 
-func Addr(ip string, port int) *net.UDPAddr { return &net.UDPAddr{IP: net.ParseIP(ip).To4(), Port: port} }
+// Addr: IPv4 addresses in their 4-byte form, IPv6 ones in their 16-byte form (as a udp4 resp.
+// udp6 socket reports them).
+func Addr(ip string, port int) *net.UDPAddr {
+	p := net.ParseIP(ip)
+	if v4 := p.To4(); v4 != nil && !strings.Contains(ip, ":") {
+		return &net.UDPAddr{IP: v4, Port: port}
+	}
+	return &net.UDPAddr{IP: p.To16(), Port: port}
+}
